@@ -22,7 +22,8 @@ ASSUMPTIONS = [
 
 
 def rng_for(seed, *key):
-    return random.Random(hash((seed,) + tuple(key)) & 0xffffffff)
+    import zlib
+    return random.Random(zlib.crc32(repr((seed,) + tuple(key)).encode()))   # stable across processes (str hashes are salted)
 
 
 class Problem:
